@@ -40,7 +40,7 @@ type guardAlt struct {
 func runC04(c *Ctx) {
 	p := c.P
 	c.Rule("R4.1", "E2", "spatial layer switches only at the first packet of a keyframe (or follows a new top layer)", 2)
-	c.Rule("R4.2", "E2", "temporal layer falls at frame starts, rises at keyframes or marked up-switch points (or follows a new top layer)", 4)
+	c.Rule("R4.2", "E2", "temporal layer falls at frame starts, rises at keyframes or marked up-switch points (or follows a new top layer)", 3)
 	c.Rule("R4.3", "E2/E4", "highest-seen layers only grow; wanted layers move one step within bounds; confined writers", 10)
 	c.Rule("R4.4", "E3", "no packet above the current layers reaches the map without a withhold attempt", 2)
 	c.Rule("R4.5", "E2", "low-quality limit installed on every track, honoured by adjustLayer, set only without simulcast", 4)
@@ -111,7 +111,7 @@ func runC04(c *Ctx) {
 			"wantedTid": {"R4.3", wantedAlts("tid", "maxTid", "Tid", false), "the wanted temporal layer is changed by the forwarding path outside the follow-the-top exception"},
 		}
 		k := newKeyer()
-		counts := map[string]int{}
+		counts, kinds := map[string]int{}, map[string]int{}
 		ast.Inspect(wr.Body(), func(n ast.Node) bool {
 			as, ok := n.(*ast.AssignStmt)
 			if !ok || len(as.Lhs) != 1 || len(as.Rhs) != 1 {
@@ -138,23 +138,19 @@ func runC04(c *Ctx) {
 			}
 			counts[fname]++
 			rhs := types.ExprString(as.Rhs[0])
+			kinds[fname+"="+rhs]++
 			alts := tb.alts[rhs]
-			st, _ := facts.At(as)
-			var okAlt *guardAlt
+			var altFacts [][]*Fact
 			for i := range alts {
-				all := st != nil
-				for _, f := range alts[i].facts {
-					if !all || !st.HasFact(f) {
-						all = false
-					}
-				}
-				if all {
-					okAlt = &alts[i]
-					break
-				}
+				altFacts = append(altFacts, alts[i].facts)
 			}
-			if okAlt != nil {
-				c.OK(tb.rule, key, as.Pos(), "%s", okAlt.name)
+			okAlt, used := facts.HoldsSomeAlt(as, altFacts)
+			if okAlt {
+				var names []string
+				for _, i := range used {
+					names = append(names, alts[i].name)
+				}
+				c.OK(tb.rule, key, as.Pos(), "%s", strings.Join(names, " | "))
 			} else {
 				var want []string
 				for _, a := range alts {
@@ -167,8 +163,10 @@ func runC04(c *Ctx) {
 			}
 			return true
 		})
-		if counts["sid"] < 2 || counts["tid"] < 4 {
-			c.Bad("R4.1", "switch sites found", wr.Pos(), "Write has %d stores of the spatial and %d of the temporal layer; 2 and 4 were confirmed by hand", counts["sid"], counts["tid"])
+		for _, kind := range []string{"sid=layer.wantedSid", "sid=flags.Sid", "tid=layer.wantedTid", "tid=flags.Tid"} {
+			if kinds[kind] == 0 {
+				c.Bad("R4.1", "switch sites found", wr.Pos(), "Write no longer has a store %s (%d stores of the spatial and %d of the temporal layer found): the selection is never moved to the wanted layer, or the rule does not see where it is", strings.Replace(kind, "=", " = ", 1), counts["sid"], counts["tid"])
+			}
 		}
 		// every store is published: a setLayerInfo(layer) follows on every path before Drop/Map
 		// ---- R4.4 ----
@@ -225,7 +223,8 @@ func runC04(c *Ctx) {
 		info := al.Pkg.TypesInfo
 		facts := eng.Analyze(al)
 		k := newKeyer()
-		nst := 0
+		nst, nWantedSid := 0, 0
+		var offZero []string
 		var setCalls []*ast.CallExpr
 		ast.Inspect(al.Body(), func(n ast.Node) bool {
 			if call, ok := n.(*ast.CallExpr); ok && fnIs(calleeOf(&CallSite{Call: call, In: al}), "rtpconn", "rtpDownTrack", "setLayerInfo") {
@@ -257,6 +256,7 @@ func runC04(c *Ctx) {
 			switch fname {
 			case "wantedSid":
 				cur, max = "sid", "maxSid"
+				nWantedSid++
 			case "wantedTid":
 				cur, max = "tid", "maxTid"
 			default:
@@ -271,14 +271,20 @@ func runC04(c *Ctx) {
 				if tv := info.Types[be.Y]; tv.Value != nil && tv.Value.String() == "1" && st != nil {
 					switch be.Op {
 					case token.ADD:
-						ok2 = st.HasFact(mkFact(true, "lt", L(cur), L(max)))
+						need := []*Fact{mkFact(true, "lt", L(cur), L(max))}
 						if fname == "wantedSid" {
-							ok2 = ok2 && st.HasFact(mkFact(false, "true", L("limitSid"), nil))
+							need = append(need, mkFact(false, "true", L("limitSid"), nil))
 						}
+						ok2, _ = facts.HoldsSomeAlt(as, [][]*Fact{need})
 						why = "one step up, below the highest layer seen" + map[bool]string{true: ", not limited", false: ""}[fname == "wantedSid"]
 					case token.SUB:
-						ok2 = st.HasFact(mkFact(true, "lt", TConst("0"), L(cur)))
+						ok2, _ = facts.HoldsSomeAlt(as, [][]*Fact{{mkFact(true, "lt", TConst("0"), L(cur))}})
 						why = "one step down, above 0"
+					}
+					if fname == "wantedSid" {
+						if okLim, _ := facts.HoldsSomeAlt(as, [][]*Fact{{mkFact(false, "true", L("limitSid"), nil)}}); !okLim {
+							offZero = append(offZero, p.PosStr(as.Pos()))
+						}
 					}
 				}
 			}
@@ -289,8 +295,8 @@ func runC04(c *Ctx) {
 			}
 			return true
 		})
-		if nst < 6 {
-			c.Bad("R4.3", "adjustLayer stores found", al.Pos(), "only %d stores to wanted layers found (6 confirmed by hand)", nst)
+		if nst < 4 {
+			c.Bad("R4.3", "adjustLayer stores found", al.Pos(), "only %d stores to wanted layers found (one step up and down for each of the two dimensions expected)", nst)
 		}
 		// at most one published change per call
 		okOne := len(al.Body().List) > 0
@@ -305,28 +311,10 @@ func runC04(c *Ctx) {
 			}, nil, func(flag int) bool { return flag > 1 })
 			okOne = !found
 		}
-		c.Check(okOne && len(setCalls) >= 5, "R4.3", "adjustLayer: one step per call", al.Pos(), fmt.Sprintf("%d setLayerInfo sites, at most one on any path", len(setCalls)), "a single feedback event can move the selection by more than one step")
-		// R4.5 (ii): limited tracks are steered to 0 first
-		okSteer := false
-		ast.Inspect(al.Body(), func(n ast.Node) bool {
-			ifs, ok := n.(*ast.IfStmt)
-			if !ok {
-				return true
-			}
-			cs := conjuncts(ifs.Cond)
-			if len(cs) == 2 && strings.HasSuffix(types.ExprString(cs[0]), ".limitSid") && strings.HasSuffix(types.ExprString(cs[1]), ".wantedSid != 0") {
-				for _, s := range ifs.Body.List {
-					if as, ok := s.(*ast.AssignStmt); ok && strings.HasSuffix(types.ExprString(as.Lhs[0]), ".wantedSid") && types.ExprString(as.Rhs[0]) == "0" {
-						// it is the first alternative of the switch-up chain
-						if par, ok := p.Parent(al.File, ifs).(*ast.BlockStmt); ok && len(par.List) >= 2 {
-							okSteer = true
-						}
-					}
-				}
-			}
-			return true
-		})
-		c.Check(okSteer, "R4.5", "adjustLayer steers a limited track to spatial layer 0 first", al.Pos(), "limitSid && wantedSid != 0 => wantedSid = 0, before any other adjustment", "a track limited to low quality is not steered down to spatial layer 0")
+		c.Check(okOne && len(setCalls) >= 1, "R4.3", "adjustLayer: one step per call", al.Pos(), fmt.Sprintf("%d setLayerInfo sites, at most one on any path", len(setCalls)), "a single feedback event can move the selection by more than one step")
+		// R4.5 (ii): bandwidth feedback never moves a limited track off spatial layer 0
+		// (the limit is installed together with wantedSid = 0: R4.5 (i); Write follows a new top layer only when not limited: R4.3)
+		c.Check(len(offZero) == 0 && nWantedSid > 0, "R4.5", "adjustLayer keeps a limited track at spatial layer 0", al.Pos(), fmt.Sprintf("%d stores to wantedSid: each stores 0 or is reachable only when the track is not limited", nWantedSid), "a track limited to low quality can be moved to a spatial layer other than 0 by bandwidth feedback (at "+strings.Join(offZero, ", ")+")")
 	}
 
 	// ---------- who writes the selection ----------
@@ -464,42 +452,8 @@ func runC04(c *Ctx) {
 			c.Check(okInst && okAll && okDefer, "R4.5", "replaceTracks installs the limit on every track of the connection", rt.Pos(), "deferred: for every track, layer.limitSid = limitSid; setLayerInfo(layer)", "the low-quality limit requested by the receiver is not installed on every track")
 			c.Check(okReset, "R4.5", "installing the limit resets the wanted spatial layer", rt.Pos(), "limitSid => wantedSid = 0", "a limited track keeps a wanted spatial layer above 0: it is not steered to the lowest layer at the next keyframe")
 			// requestedTracks: limit only for video-low without simulcast
-			qinfo := rq.Pkg.TypesInfo
-			qf := eng.Analyze(rq)
-			okLim, nLim := true, 0
-			ast.Inspect(rq.Body(), func(n ast.Node) bool {
-				if _, isLit := n.(*ast.FuncLit); isLit {
-					return false
-				}
-				as, ok := n.(*ast.AssignStmt)
-				if !ok || len(as.Lhs) != 1 || types.ExprString(as.Lhs[0]) != "limitSid" {
-					return true
-				}
-				tv := qinfo.Types[as.Rhs[0]]
-				if tv.Value == nil || tv.Value.String() != "true" {
-					return true
-				}
-				nLim++
-				st, _ := qf.At(as)
-				vl := rq.localVar("videoLow")
-				cnt := rq.localVar("count")
-				if st == nil || vl == nil || !st.HasFact(mkFact(true, "true", TVar(vl), nil)) {
-					okLim = false
-					return true
-				}
-				okCnt := false
-				for _, f := range st.Facts() {
-					if f.Op == "lt" && f.Pos && f.A.K == 'v' && f.A.Obj.Name() == "count" && f.B.Name == "2" {
-						okCnt = true
-					}
-				}
-				_ = cnt
-				if !okCnt {
-					okLim = false
-				}
-				return true
-			})
-			c.Check(okLim && nLim == 1, "R4.5", "the limit is requested only for video-low without simulcast", rq.Pos(), "limitSid = true under videoLow && count < 2", "the spatial limit is set for requests other than low quality from a non-simulcast publisher (or never)")
+			okLim, nLim := limitRequestOK(p, rq)
+			c.Check(okLim && nLim == 1, "R4.5", "the limit is requested only for video-low without simulcast", rq.Pos(), "limitSid becomes true only under videoLow && !video && count < 2", "the spatial limit is set for requests other than low quality from a non-simulcast publisher (or never)")
 		}
 	}
 
@@ -560,4 +514,65 @@ func runC04(c *Ctx) {
 		}
 		c.Check(okCell, "R4.6", "the ceiling cell is written only through bitrate.Set", 0, "bitrate.bitrate referenced only in Set/Get", "the ceiling is stored behind Set's back")
 	}
+}
+
+// limitRequestOK: in requestedTracks the local limitSid becomes true only on
+// the video-low path (videoLow && !video) and only when fewer than two video
+// tracks were counted; n is the number of assignments that can make it true.
+func limitRequestOK(p *Program, rq *FuncSrc) (ok bool, n int) {
+	info := rq.Pkg.TypesInfo
+	ff := p.Facts().Analyze(rq)
+	lim, vl, vid := rq.localVar("limitSid"), rq.localVar("videoLow"), rq.localVar("video")
+	if lim == nil || vl == nil || vid == nil {
+		return false, 0
+	}
+	ok = true
+	ast.Inspect(rq.Body(), func(m ast.Node) bool {
+		if _, isLit := m.(*ast.FuncLit); isLit {
+			return false
+		}
+		as, isAs := m.(*ast.AssignStmt)
+		if !isAs {
+			return true
+		}
+		for i, l := range as.Lhs {
+			id, isId := l.(*ast.Ident)
+			if !isId || info.ObjectOf(id) != lim {
+				continue
+			}
+			if len(as.Rhs) != len(as.Lhs) {
+				ok = false
+				continue
+			}
+			rhs := unparen(as.Rhs[i])
+			tv := info.Types[rhs]
+			if tv.Value != nil && tv.Value.String() == "false" {
+				continue
+			}
+			n++
+			st, _ := ff.At(as)
+			if st == nil || !st.HasFact(mkFact(true, "true", TVar(vl), nil)) || !st.HasFact(mkFact(false, "true", TVar(vid), nil)) {
+				ok = false
+				continue
+			}
+			few := false
+			if tv.Value != nil && tv.Value.String() == "true" {
+				for _, f := range st.Facts() {
+					if f.Op == "lt" && f.Pos && f.A.K == 'v' && f.B != nil && f.B.Name == "2" {
+						few = true
+					}
+				}
+			} else if be, isB := rhs.(*ast.BinaryExpr); isB {
+				// limitSid = count < 2
+				two := func(e ast.Expr) bool { t := info.Types[e]; return t.Value != nil && t.Value.String() == "2" }
+				isVar := func(e ast.Expr) bool { _, v := unparen(e).(*ast.Ident); return v }
+				few = (be.Op == token.LSS && isVar(be.X) && two(be.Y)) || (be.Op == token.GTR && two(be.X) && isVar(be.Y))
+			}
+			if !few {
+				ok = false
+			}
+		}
+		return true
+	})
+	return ok, n
 }
